@@ -597,7 +597,7 @@ package tree
 //@   loop 1 invariant losing_case_is_deleted_below_this_node [C01 C09]: called(NewDeleteEntryImpl) ==> callarg(NewDeleteEntryImpl, 0, 0) != callres(SdcpbPath, 0, 0) &&
 //@            callarg(NewDeleteEntryImpl, 0, 0) != nil && len(callarg(NewDeleteEntryImpl, 0, 1)) == len(callres(Path, 0)) + 1
 //@   loop 2 invariant collected_so_far_is_kept: len(deletes) >= len(acc) && forall(i, 0, len(acc), deletes[i] == old(acc[i]))
-//@   loop 2 invariant all_children_are_searched [C01]: called(GetAll) && $map == callres(GetAll) && allstr(k, present($map, k) ==> $map[k] != nil)
+//@   loop 2 invariant all_children_are_searched [C01 C08]: called(GetAll) && $map == callres(GetAll) && allstr(k, present($map, k) ==> $map[k] != nil)
 
 //   shouldDelete   = the leaf variants are to be deleted, or: there are active children, every one of them can be
 //                    deleted, at least one of them is to be deleted, and the leaf variants can be deleted
